@@ -158,6 +158,22 @@ def judge(ctx, kind, graph_seed, knobs, a_mode, b_mode, p_outside):
                         ctx.violate("relocated", f"relocated:{kind}:same_document_converted_again", observed={"call": k, "audio_dir": str(d), "path": str(r.path)},
                                     expected=str(want), spec=dict(_spec, directories=[str(x) for x in seq]))
                         break
+            # the same collection saved again under OTHER audio directories (the parent of A; a sub-directory that
+            # holds none of the recordings): each save is judged by the save monitor on its own directory
+            if a_arg is not None and not any_outside and recs:
+                p3 = path + ".other_dir.json"
+                _keep = _spec
+                try:
+                    IO.save(obj, p3, audio_dir=A.parent)
+                    ctx.mon("saved_again_under_other_directory")
+                    try:
+                        IO.save(obj, p3, audio_dir=A / "no recording lives here")
+                        ctx.violate("outside_recording_rejected", f"outside_recording_rejected:{kind}:after_earlier_save_with_containing_directory", observed="save succeeded", expected="error", spec=_keep)
+                    except ValueError:
+                        pass
+                finally:
+                    if os.path.exists(p3):
+                        os.remove(p3)
             # and the collection itself, written again under no / another directory
             d2 = AOEF.to_aeof(obj, audio_dir=None)
             ctx.mon("collection_converted_again_without_directory")
